@@ -282,10 +282,10 @@ Proof.
   pose proof (pow2_pos lv Hlv) as Hplv.
   assert (Hc0 : 0 <= c) by nia.
   assert (Hshr : Z.shiftr lo lv = c) by (rewrite shr_div by lia; subst lo; apply Z.div_mul; lia).
-  set (x := stored_hash_index lv c).
+  remember (stored_hash_index lv c) as x eqn:Ex.
   assert (Hx : nth_error stx i = Some x).
-  { unfold stx, sub_tree_indexes. rewrite nth_error_map, Hb. cbn [option_map fst snd]. rewrite Hshr. reflexivity. }
-  destruct (no_overflow_index lv c Hlv Hc0 ltac:(nia)) as [[Hx0 Hx63] _]. fold x in Hx0, Hx63.
+  { unfold stx, sub_tree_indexes. rewrite nth_error_map, Hb. cbn [option_map fst snd]. rewrite Hshr, Ex. reflexivity. }
+  destruct (no_overflow_index lv c Hlv Hc0 ltac:(nia)) as [[Hx0 Hx63] _]. rewrite <- Ex in Hx0, Hx63.
   destruct (Forall2_nth _ _ _ _ _ Hsto Hx) as [q [Hq [T [[t0 [s0 [e0 [Htfi ET]]]] HT]]]].
   destruct (Forall2_nth _ _ _ _ _ Hhs (nth_error_combine _ _ _ _ _ Hq Hx)) as [hh [Hhh Hat]].
   cbn [fst snd] in Hat.
@@ -298,7 +298,7 @@ Proof.
   destruct (Forall2_nth _ _ _ _ _ Hlen HTt) as [d' [Hd' Hld]]. rewrite Hd in Hd'. injection Hd' as <-.
   destruct (hash_from_tile_spec _ _ _ _ _ Hat Hx63)
     as [l [o [jb [nb [Hs [Hl [Ho [Hidx [HH [HL [HW [Hlend [HNn [Hj [Hlj [Hn' [Hco Ehh]]]]]]]]]]]]]]]]].
-  unfold x in Hs. rewrite (split_index lv c Hlv Hc0 Hx63) in Hs. injection Hs as <- <-.
+  rewrite Ex in Hs, Hx63. rewrite (split_index lv c Hlv Hc0 Hx63) in Hs. injection Hs as <- <-.
   (* the shape of T *)
   destruct (tile_for_index_spec _ _ _ _ _ Htfi ltac:(lia))
     as [l2 [o2 [j2 [n2 [_ [_ [_ [_ [Hh1 [HH0 [HL0 [_ [_ [HN0 _]]]]]]]]]]]]]].
@@ -369,7 +369,7 @@ Proof.
     as [EL' [EN' [Hjj [Hlo2 Hhi2]]]]; try assumption; try lia; try reflexivity.
   (* same tile, hence same position and same data *)
   assert (ETT : T' = T) by (rewrite ET', ETw, EL', EN'; reflexivity).
-  subst T'.
+  subst T'. fold L in Elv'. fold tn in Ec'.
   assert (q' = q) by (eapply ord_full_unique; eassumption). subst q'.
   rewrite Hd in Hd'. injection Hd' as <-.
   (* descend inside the covering block *)
@@ -394,7 +394,7 @@ Proof.
   pose proof (pow2_pos (Z.of_nat jb) ltac:(lia)) as Hpjb.
   assert (E1 : 2 ^ Z.of_nat jb = 2 ^ (Z.of_nat jb - zj) * 2 ^ zj) by (apply pow2_split; lia).
   assert (E2 : 2 ^ h = 2 ^ (h - zj) * 2 ^ zj) by (apply pow2_split; lia).
-  rewrite EN' in Ec'. rewrite E1, E2 in Ec'.
+  rewrite E1, E2 in Ec'.
   pose proof (pow2_pos (h - zj) ltac:(lia)).
   nia.
 Qed.
